@@ -79,3 +79,16 @@ func VerifTargetAddr(obj interface{}) string {
 	}
 	return ""
 }
+
+// VerifUpgradeMarshal encodes the upgrade flags with the library's own encoder (buf may be nil).
+func VerifUpgradeMarshal(buf []byte, noRequest, noResponse, heartbeat, stream byte) ([]byte, error) {
+	u := &upgrade{NoRequest: noRequest, NoResponse: noResponse, Heartbeat: heartbeat, Stream: stream}
+	return u.Marshal(buf)
+}
+
+// VerifUpgradeUnmarshal decodes an upgrade byte with the library's own decoder.
+func VerifUpgradeUnmarshal(data []byte) (noRequest, noResponse, heartbeat, stream byte, err error) {
+	u := &upgrade{}
+	_, err = u.Unmarshal(data)
+	return u.NoRequest, u.NoResponse, u.Heartbeat, u.Stream, err
+}
